@@ -22,8 +22,8 @@ def _worker(args):
     t0 = time.time()
     try:
         import resource      # a change under test that leaks without bound must end in MemoryError, not take the machine down
-        # shard workers need ~0.12 GB; 16 x 3 GB stays below the machine's memory
-        resource.setrlimit(resource.RLIMIT_AS, (3 * 1024 ** 3, 3 * 1024 ** 3))
+        # shard workers need ~0.12 GB; 16 x (2 GB + a 1 GB baseline of C18) stays below the machine's memory
+        resource.setrlimit(resource.RLIMIT_AS, (2 * 1024 ** 3, 2 * 1024 ** 3))
     except Exception:
         pass
     core.hold_reserve()
@@ -39,7 +39,7 @@ def _worker(args):
         bucket = getattr(mod, 'MEMORY_BUCKET', None)
         if bucket:       # the property of this check forbids unbounded growth across calls: running out of memory is a finding
             acc.fail(bucket, {'replay_shard': spec, 'seed': seed, 'tier': tier},
-                     'the shard ran out of its 3 GiB address space (workers normally need ~0.12 GiB)')
+                     'the shard ran out of its 2 GiB address space (workers normally need ~0.12 GiB)')
         else:
             acc.harness_errors.append('shard %r: MemoryError' % (spec,))
     except BaseException as e:  # harness fault
